@@ -3567,6 +3567,11 @@ def run_memfs_single(ctx, prop, ops, nmax, n2max, cwds=("/", "/a"), tag="mem_sin
                             if out != "skip":
                                 ob.prove(ex, st, "C01: %s succeeds/fails as the reference filesystem does (cwd %s)" % (op, cwd),
                                          B(failed == (out == "err")), cf) or ob.failures[-1].update(op=op, cwd=cwd0, pre=pre_desc, where="Memfs::" + op)
+                                if out == "err" and failed and rpath is not None:
+                                    ev = rv.fields[0] if isinstance(rv, Adt) and rv.fields else None
+                                    got_kind = ev.vname if isinstance(ev, Adt) and ev.ty == "Error" else None
+                                    ob.prove(ex, st, "C01: %s fails with the documented error kind %s (cwd %s)" % (op, rpath, cwd), B(got_kind == rpath), cf) or \
+                                        ob.failures[-1].update(op=op, cwd=cwd0, pre=pre_desc, where="Memfs::" + op, got_kind=got_kind)
                                 if out == "ok" and not failed:
                                     def cf_ref(extra, ref=ref):
                                         g2 = dict(groups)
@@ -3919,6 +3924,10 @@ PRE_REF    if let (true, Ok(ok)) = (pre_known, r.apply(%s, %s, %s)) {
     }
 ''' % (rs_str(cwd), rs_str(op), rs_str(a["arg0"]), rs_str(a.get("data1", a.get("arg1", ""))), op, op)
     refcheck = refcheck.replace("PRE_REF", pre_ref)
+    mk = re.search(r"documented error kind (\w+)", f["desc"])
+    if mk:
+        camel = "".join(w.capitalize() for w in mk.group(1).split("_"))
+        refcheck += '    assert!(!failed || r.contains("%s"), "C01: %s fails with {} instead of the documented %s", r);\n' % (camel, op, camel)
     return MEM_REPLAY_PRELUDE + '''
 #[test]
 fn replay_memfs_op() {
@@ -4845,24 +4854,30 @@ def ref_apply(ex, st, ref, op, paths, data, opts=None):
         pn = ref_find(ex, st, ref, par) if par is not None else None
         return pn is not None and pn["kind"] == "d"
 
+    def parent_err():
+        """documented error kind when the parent is unusable: DoesNotExist (missing) / IsNotDir (not a directory)"""
+        par = TP.parent_text(ex, st, p)
+        pn = ref_find(ex, st, ref, par) if par is not None else None
+        return ("err", "does_not_exist" if pn is None else "is_not_dir")
+
     if op == "mkfile":
         if node is not None:
             if node["kind"] != "f":
-                return ("skip", None) if is_root else ("err", None)
+                return ("skip", None) if is_root else ("err", "is_not_file" if node["kind"] == "d" else None)
             return ("ok", p)
         if not parent_ok():
-            return ("err", None)
+            return parent_err()
         ref["nodes"].append(newfile([]))
         return ("ok", p)
     if op in ("write_all", "append_all"):
         d = [BV(8, False, c.v) if c.concrete else BV(8, False, "((_ extract 7 0) %s)" % c.smt()) for c in data]
         if node is not None:
             if node["kind"] != "f":
-                return ("skip", None) if is_root else ("err", None)
+                return ("skip", None) if is_root else ("err", "is_not_file" if node["kind"] == "d" else None)
             node["content"] = (node["content"] + d) if op == "append_all" else d
             return ("ok", None)
         if not parent_ok():
-            return ("err", None)
+            return parent_err()
         ref["nodes"].append(newfile(d))
         return ("ok", None)
     if op == "mkdir_p":
@@ -4875,7 +4890,7 @@ def ref_apply(ex, st, ref, op, paths, data, opts=None):
             if n is None:
                 made.append(dict(key=list(cur.chars), kind="d", content=None, mode=BV(32, False, 0o40755), uid=BV(32, False, 1000), gid=BV(32, False, 1000)))
             elif n["kind"] != "d":
-                return ("err", None)
+                return ("err", "is_not_dir" if n["kind"] == "f" else None)
         ref["nodes"] += made
         return ("ok", p)
     if op == "remove":
@@ -4902,7 +4917,7 @@ def ref_apply(ex, st, ref, op, paths, data, opts=None):
         return ("ok", None)
     if op == "set_cwd":
         if node is None:
-            return ("err", None)
+            return ("err", "does_not_exist")
         ref["cwd"] = list(p)
         return ("ok", p)
     if op == "symlink":
@@ -5053,7 +5068,7 @@ def ref_apply(ex, st, ref, op, paths, data, opts=None):
     if op == "move_p":
         src, dst = p, paths[1]
         if node is None:
-            return ("err", None)
+            return ("err", "does_not_exist")
         if is_root:
             return ("skip", None)
         dn = ref_find(ex, st, ref, dst)
